@@ -1,5 +1,7 @@
 import Dasp.Lemmas.Osc
 import Dasp.Lemmas.OscFP
+import Dasp.Lemmas.SimplexRounding
+import Dasp.Lemmas.RoundRel
 /-!
 # C17 — oscillators and noise sources keep phase and amplitude in range at any rate
 
@@ -29,8 +31,11 @@ data (hash primes, shift, mask, divisor, 256-entry PERM table, gradient masks, 0
   agrees bit-for-bit with the compiled code.  Proved there: the f64 phase stays finite in [0,1) for runs of any
   length whenever every quotient hz/rate is finite (≤ 2^1023 − 2^52) and non-negative; f64 saw ∈ [−1,1]; f64 square
   = ±1.  NOT proved in f64 (measured on every run by the harness' native range oracles over 10^5–10^6-frame runs,
-  labelled tests in props/C17.json): f64 sine ∈ [−1,1] (libm), f64 simplex ∈ [−1,1] (rounding slack of the
-  polynomial), f64 noise (exact by inspection: m < 2^31 and m/2^30 are dyadic — validated bit-for-bit).  The known finding
+  labelled tests in props/C17.json): f64 sine ∈ [−1,1] (libm), f64 noise (exact by inspection: m < 2^31 and m/2^30 are dyadic — validated bit-for-bit).  The known finding
+* **Rounded arithmetic** (`simplex_value_bound_rounded`, `softfloat_absrnd`): the float value of `simplex_noise_1d` is
+  within `531·e` of the exact one for any rounding that moves values of magnitude ≤ 32 by at most `e` (error propagated
+  through all 17 operations, `Lemmas/SimplexRounding.lean`), hence in [−1, 1]; binary64's rounding is proved to qualify.
+  (It was a measurement before; the harness still checks every frame of its runs.)
   `C17-step-overflow` (hz/rate = +inf ⇒ NaN) lies outside the exact model by construction (a
   rational quotient is always finite); it is re-confirmed on the real code by a probe on every run.
 -/
@@ -225,8 +230,9 @@ theorem simplex_value_bound (x : Rat) (h0 : 0 ≤ x) (h1 : x < 65536) :
 
 /-- (exact) **every frame of a simplex-noise run of any length** is within [−0.99984375, 0.99984375] ⊂ [−1, 1]:
     the phase handed to `simplex_noise_1d` is wrapped at 2^16, for every rate > 0 and non-negative frequencies.
-    `simplex_in_range_partial`: exact arithmetic only; the f64 slack (14 operations on values ≤ 8, < 2^-44 ≪ the
-    1.6·10^-4 margin) is not proved — the f64 range is measured on every run (largest observed |x| = 0.99984375). -/
+    `simplex_in_range_partial`: exact arithmetic for whole runs; the f64 slack is the subject of
+    `simplex_value_bound_rounded` below (per value, for every phase in [0, 2^16), which is where
+    `fp_nextPhaseWrappedTo_inv` keeps the f64 phase). -/
 theorem simplex_in_range_partial (src : StepSrc Rat) (hs : SrcOK src) (n : Nat) :
     ∀ y ∈ (run (simplexNext (ratArith sinO)) n (phase (ratArith sinO) src)).1, -1 < y ∧ y < 1 := by
   intro y hy
@@ -235,6 +241,41 @@ theorem simplex_in_range_partial (src : StepSrc Rat) (hs : SrcOK src) (n : Nat) 
     (phase_inv sinO (by norm_num) hs)).1 y hy
   have := abs_le.mp (simplexNoise1d_bound sinO h0 h1)
   rw [e]; constructor <;> linarith [this.1, this.2]
+
+/-- (rounded arithmetic) **the float value of `simplex_noise_1d` lies in [−1, 1]**: in the arithmetic in which every
+    `+ − ×` and the literal `0.395` are followed by one rounding that moves values of magnitude ≤ 32 by at most `e`
+    (`AbsRnd`; small integers exact), the SAME `simplexNoise1d` differs from its exact value by at most `531·e`
+    (`simplex_rounded_close`: the error is propagated through all 17 operations), hence stays within [−1, 1] as soon
+    as `531·e ≤ 1.5625·10^−4` — for binary64, `e = 33·2^−53` (`softfloat_absrnd`), a margin of ten orders of magnitude -/
+theorem simplex_value_bound_rounded {rnd : Rat → Rat} {e : Rat} (ok : AbsRnd rnd e)
+    (hint : ∀ n : Nat, n ≤ 8 → rnd (n : Rat) = (n : Rat)) (he : 531 * e ≤ 15625 / 100000000)
+    (x : Rat) (h0 : 0 ≤ x) (h1 : x < 65536) :
+    |simplexNoise1d (rndRatArith rnd sinO) x| ≤ 1 := by
+  have hc := simplex_rounded_close sinO ok hint h0 h1
+  have hb := simplexNoise1d_bound sinO h0 h1
+  have h1' := abs_le.mp hc; have h2' := abs_le.mp hb
+  rw [abs_le]; constructor <;> linarith
+
+/-- the rounding of the executable binary64 soft-float satisfies the hypotheses of `simplex_value_bound_rounded`:
+    one rounding moves a value of magnitude ≤ 32 by at most `33·2^−53`, and the integers 0..8 are exact -/
+theorem softfloat_absrnd :
+    AbsRnd (rs Dasp.f64) (33 * Dasp.pow2 (-53)) ∧ (∀ n : Nat, n ≤ 8 → rs Dasp.f64 (n : Rat) = (n : Rat)) ∧
+    531 * (33 * Dasp.pow2 (-53)) ≤ (15625 / 100000000 : Rat) := by
+  have hp53 : Dasp.pow2 (-53) = 1 / 9007199254740992 := by simp [Dasp.pow2]
+  have hη : Dasp.pow2 (Dasp.f64.emin - 1) ≤ Dasp.pow2 (-53) := Dasp.pow2_mono (by decide)
+  refine ⟨⟨by norm_num [hp53], by norm_num [hp53], ?_⟩, ?_, by norm_num [hp53]⟩
+  · intro y hy
+    have := Dasp.rs_err Dasp.f64 y
+    have hu : Dasp.pow2 (-((Dasp.f64.prec : Nat) : Int)) = Dasp.pow2 (-53) := rfl
+    rw [hu] at this
+    have h32 : Dasp.pow2 (-53) * |y| ≤ Dasp.pow2 (-53) * 32 := mul_le_mul_of_nonneg_left hy (le_of_lt (Dasp.pow2_pos _))
+    linarith
+  · intro n hn
+    rcases Nat.eq_zero_or_pos n with h | h
+    · subst h; simp [Dasp.rs]
+    · have hr := round_nat false n h (le_trans hn (by norm_num))
+      have := Dasp.round_toRat_eq_rs Dasp.f64 false (n : Rat) (n : Rat) (by rw [hr]; simp [Dasp.FP.toRat?])
+      exact this.symm
 
 /-! ### what the f64 code computes (soft-float instance, validated bit-for-bit by the `fp` stream) -/
 
